@@ -685,7 +685,7 @@ func dumpIsDeadlock(dump string) bool {
 		switch {
 		case st == "chan receive", st == "chan send", st == "select", st == "select (no cases)", strings.HasPrefix(st, "sync."), st == "semacquire", st == "chan receive (nil chan)", st == "chan send (nil chan)":
 			blocked++
-		case st == "GC worker (idle)", st == "GC sweep wait", st == "GC scavenge wait", st == "finalizer wait", st == "force gc (idle)", st == "debug call", st == "trace reader (blocked)", st == "cleanup wait":
+		case st == "GC worker (idle)", st == "GC sweep wait", st == "GC scavenge wait", st == "finalizer wait", st == "force gc (idle)", st == "debug call", st == "trace reader (blocked)", st == "cleanup wait", st == "idle":
 		case st == "syscall", st == "running", st == "runnable", st == "IO wait", st == "sleep":
 			// The SIGQUIT handler itself runs on some goroutine/thread: "running" appears for the
 			// goroutine that was interrupted only if it is really executing. signal.Notify loop is "syscall".
